@@ -6,6 +6,7 @@ events" wire format and falcon's public documentation of Response.text/data/medi
 
     status   ['int', n] | ['line', 'NNN phrase'] | ['digits', 'NNN'] | ['enum', n]
              | ['bytes', 'NNN phrase' or 'NNN']   (assigned as a byte string, as falcon's own suite does)
+             | ['strsub', 'NNN phrase' or 'NNN']  (assigned as an instance of a str subclass)
     text     None | str            data   None | bytes (latin-1 str in JSON)
     media    ['unset'] | ['set', json value]
     stream   None | {'kind', 'chunks': [bytes...], 'raise_at': k|None, ...}
@@ -28,6 +29,10 @@ def status_code(spec):
     return int(v[:3])
 
 
+class StatusStr(str):
+    """A str subclass (e.g. an enum-like constant class of the application) used as a status."""
+
+
 def status_value(spec):
     """The python object the application assigns to resp.status."""
     kind, v = spec
@@ -35,6 +40,8 @@ def status_value(spec):
         return http.HTTPStatus(v)
     if kind == 'bytes':
         return v.encode('latin-1')
+    if kind == 'strsub':
+        return StatusStr(v)
     return v
 
 
@@ -44,7 +51,7 @@ def status_line_ok(spec, line):
         return False
     if int(line[:3]) != status_code(spec):
         return False
-    if spec[0] == 'line' or (spec[0] == 'bytes' and ' ' in spec[1]):
+    if spec[0] == 'line' or (spec[0] in ('bytes', 'strsub') and ' ' in spec[1]):
         return line == spec[1]      # documented: a status line string is passed through
     return True
 
